@@ -10,7 +10,9 @@ Streams (all drawn from the seed): `gen` (portfolios of harness.gen + the kinds 
 CHP, CHP classes as plain plants with `_no_heat`, linked assets, order books from DataFrames), `dst` (grids a portfolio
 OWNS whose start / end are zone-aware time stamps at the daylight-saving switches, with and without the `timezone`
 keyword: `gen_grid_dst`), `sweep` (every constructor parameter of every class of the regenerated schema table with
-another value than its default: `sweep_groups`, `gen_case_sweep`), and the case `coverage`, which asserts that
+another value than its default: `sweep_groups`, `gen_case_sweep`), `dates` (date containers of every kind — lists / numpy object
+arrays of zone-aware time stamps, DatetimeIndex with calendar frequencies, ... — inside interval data, orders and windows on
+grids in zones with an offset to UTC around the daylight-saving switches: `gen_case_dates`, harness/comp/datecont.py), and the case `coverage`, which asserts that
 parameter coverage against the schema table / inspect.signature and writes every gap to the evidence.
 
 No Lean driver is involved: the model of this component is the schema table that `schema_gen.py`
@@ -1389,9 +1391,13 @@ def _eq(a, b):
         return isinstance(a, pd.DatetimeIndex) and isinstance(b, pd.DatetimeIndex) and len(a) == len(b) \
             and all(_eq(x, y) for x, y in zip(a, b)) and a.freqstr == b.freqstr and str(a.tz) == str(b.tz)
     if isinstance(a, np.ndarray) or isinstance(b, np.ndarray):
+        if isinstance(a, np.ndarray) and isinstance(b, np.ndarray) and (a.dtype == object or b.dtype == object):
+            # object arrays of time stamps (numpy has no zone-aware date type): element by element, instants AND zones; the
+            # statement does not demand the same numpy dtype for the same dates (a datetime64 array holds the same naive dates)
+            return a.shape == b.shape and all(_eq(x, y) for x, y in zip(a.ravel(), b.ravel()))
         return isinstance(a, np.ndarray) and isinstance(b, np.ndarray) and a.shape == b.shape \
             and a.dtype.kind == b.dtype.kind and bool(np.all(a == b))
-    if isinstance(a, (dt.datetime, pd.Timestamp)) and isinstance(b, (dt.datetime, pd.Timestamp)):
+    if isinstance(a, (dt.datetime, pd.Timestamp, np.datetime64)) and isinstance(b, (dt.datetime, pd.Timestamp, np.datetime64)):
         a, b = pd.Timestamp(a), pd.Timestamp(b)
         if (a.tzinfo is None) != (b.tzinfo is None):
             return False
@@ -1407,7 +1413,8 @@ def _eq(a, b):
 
 def gen_value(rnd, depth=0):
     """(value, whole_second) — a random value of the codec's domain"""
-    k = rnd.choice(['naive', 'aware', 'aware', 'date', 'arr', 'arr2', 'arrint', 'arrdate', 'arrdate_res', 'idx', 'idxtz', 'idxfreq', 'dict', 'list', 'scalar', 'subsec'])
+    k = rnd.choice(['naive', 'aware', 'aware', 'date', 'arr', 'arr2', 'arrint', 'arrdate', 'arrdate_res', 'idx', 'idxtz', 'idxfreq', 'dict', 'list', 'scalar', 'subsec',
+                    'arrobj', 'arrobj', 'idxtzfreq', 'idxtzfreq'])
     base = pd.Timestamp('2021-01-01') + pd.Timedelta(seconds=rnd.randrange(0, 3 * 365 * 86400))
     if k == 'naive':
         return (base.to_pydatetime() if rnd.random() < 0.5 else base), True
@@ -1438,6 +1445,21 @@ def gen_value(rnd, depth=0):
         return pd.DatetimeIndex([(base + pd.Timedelta(hours=j)).tz_localize('UTC').tz_convert(z) for j in range(rnd.randint(1, 4))]), True
     if k == 'idxfreq':
         return pd.date_range(base.floor('h'), periods=rnd.randint(3, 5), freq=rnd.choice(['h', 'D', '15min'])), True
+    if k == 'arrobj':
+        # numpy OBJECT arrays of time stamps (zone-aware: what DatetimeIndex.to_numpy() returns; numpy has no zone-aware date type)
+        z = rnd.choice(ZONES + [None])
+        ts = [base + pd.Timedelta(hours=rnd.choice([1, 24, 24 * 7]) * j) for j in range(rnd.randint(1, 4))]
+        if z is not None:
+            ts = [t.tz_localize('UTC').tz_convert(z) for t in ts]
+        return DC._objarr(ts if rnd.random() < 0.6 else [t.to_pydatetime() for t in ts]), True
+    if k == 'idxtzfreq':
+        # zone-aware index WITH a frequency, also calendar frequencies over a daylight-saving switch (local midnights: not equidistant as instants)
+        z = rnd.choice(ZONES + DST_ZONES)
+        f = rnd.choice(['D', 'D', 'W', 'MS', '2D', 'h', '12h', '15min'])
+        tr = DC.transitions(z, base.year)
+        start = (rnd.choice(tr)[1] - pd.Timedelta(days=rnd.randint(0, 3))) if (tr and rnd.random() < 0.7) else base.floor('D')
+        r = pd.date_range(start=start, periods=rnd.randint(3, 6), freq=f, tz=z)
+        return r[rnd.randint(0, 1):], True
     if k == 'scalar' or depth >= 2:
         return rnd.choice([None, True, 3, -1, 0.125, 'abc', 2.5, 'p1']), True
     if k == 'dict':
@@ -1564,6 +1586,12 @@ def scenarios(seed, tier):
     def emit(cid, case):
         covered.update(case_params(case))
         return cid, case
+    # date containers of every kind inside interval data / orders / windows, on grids in zones with an offset to UTC
+    # (own generator: the cases of the other streams stay the same for a seed; first, so that a failing input of the
+    #  statement-level oracles is what a run reports first)
+    rnd_d = random.Random(seed * 15485863 + 2221)
+    for i in range(200 if tier == 'quick' else 1200):
+        yield emit('dates%d' % i, gen_case_dates(random.Random(rnd_d.getrandbits(48)), i))
     for i in range(n):
         yield emit('gen%d' % i, gen_case(random.Random(rnd.getrandbits(48)), i))
     for j in range(3 if tier == 'quick' else 10):
@@ -1580,10 +1608,6 @@ def scenarios(seed, tier):
             case = gen_case_sweep(random.Random(rnd.getrandbits(48)), cls, musts, j + rep)
             if case is not None:
                 yield emit('sweep%d_%d' % (rep, j), case)
-    # date containers of every kind inside interval data / orders / windows, on grids in zones with an offset to UTC
-    rnd = random.Random(seed * 15485863 + 2221)
-    for i in range(200 if tier == 'quick' else 1200):
-        yield emit('dates%d' % i, gen_case_dates(random.Random(rnd.getrandbits(48)), i))
     yield 'coverage', {'coverage': True, 'covered': sorted(covered)}
 
 
